@@ -4,7 +4,7 @@
    Round 2 (polish): [Example]s of non-vacuity (data in PoolFrame2.v: a history in which a Go slice is written after
    the constructors copied it, returned arrays are written, the collection is mutated) and, from
    C18_new_object_is_appended on, the frame theorem stated per API entry point (PoolFrame2.v). *)
-From Verif Require Import Base Sorter Value Seq Coll Pool PoolFrame PoolFrame2.
+From Verif Require Import Base Sorter Value Seq Coll Pool PoolFrame PoolFrame2 ParamsFoot AliasFacts AliasProofs.
 
 Theorem C18_step_changes_only_its_receiver :
   forall (zero : val) (p : pool) (o : op) (p' : pool) (r : ret),
@@ -20,7 +20,7 @@ Proof. exact step_frame. Qed.
    not affected by later mutation of the list and vice versa. *)
 Example C18_history_example :
   run (wi 0) [] ex_alias_ops =
-    [OSlice [wi 7; wi 8; wi 9]; OLst [wi 3; wi 4; wi 3; wi 4]; OSet 0 [wi 1; wi 2; wi 3]; OStk 16 [wi 1; wi 2; wi 3];
+    [OSlice [wi 7; wi 8; wi 9]; OLst [wi 3; wi 4; wi 3; wi 4]; OSet 0 [wi 1; wi 2; wi 3]; OStk default_stack_cap [wi 1; wi 2; wi 3];
      OSlice [wi 5; wi 2; wi 3]; OArr [wi 0; wi 2]; OArr [wi 1; wi 2]].
 Proof. vm_compute; reflexivity. Qed.
 
@@ -341,6 +341,29 @@ Example C18_slice_written_after_construction_example :
 Proof. split; [reflexivity|]. split; [vm_compute; lia|]. repeat split; vm_compute; reflexivity. Qed.
 
 
+(* ---- with the static aliasing extraction as the premise (closed in AliasStatic.v, compiled by ./check C18) ----
+   The frame theorems above read "every object of the pool owns its storage" - true of the model by construction.
+   tools/gofootprint derives the same reading for the Go code from its typed syntax trees (ParamsFoot.foot_api ...):
+   with [alias_ok = true] every array or sequence the property names (AsArray, GetValues, GetKeys, RemoveValues,
+   GetIterator, every constructor and class function) is memory allocated in the call and stored nowhere else (or a
+   new set keeping only the collator of its operand), the rows that are not clean are exactly the reviewed agents,
+   storage is written in place only by the reviewed methods and no field is set to memory that is not fresh, and no
+   result contains element objects of the receiver - so that the separate objects of the pool are a faithful picture
+   of the implementation's objects.  The analysis and its rules are trusted (docs/C18.md). *)
+Theorem C18_static_no_shared_storage :
+  alias_ok = true ->
+  ((forall r, In r foot_api -> c18_named r = true -> api_is_result r = true ->
+              api_clean r = true \/ keeps_only_a_collator r = true) /\
+   filter (fun r => negb (api_clean r)) foot_api = expected_api_exceptions /\
+   foot_storage_writes = expected_storage_writes /\ foot_field_sets = [] /\
+   (forall r, In r foot_api -> contains shared_elements_phrase (api_verdict r) = false)) /\
+  (forall (zero : val) (p : pool) (o : op) (p' : pool) (r : ret),
+     step zero p o = (p', r) ->
+     (length p <= length p' <= S (length p))%nat /\
+     (forall i : nat, (i < length p)%nat -> writes o <> Some i -> nth i p' ODead = nth i p ODead)).
+Proof. exact alias_static_no_shared_storage. Qed.
+
+
 Print Assumptions C18_step_changes_only_its_receiver.
 Print Assumptions C18_failed_call_changes_nothing.
 Print Assumptions C18_history_frame.
@@ -370,3 +393,4 @@ Print Assumptions C18_caller_writes_address_only_the_callers_object.
 Print Assumptions C18_slice_written_after_construction.
 Print Assumptions C18_element_writes_address_only_the_callers_array.
 Print Assumptions C18_element_write_leaves_the_collection_unchanged.
+Print Assumptions C18_static_no_shared_storage.
